@@ -19,20 +19,20 @@ LIFE = {
     "C04": dict(models=["base_exp"], tmodels=["base_conf", "overlap"], fams=["base", "overlap"], crashes=(0,), wf=0, rf=0, heights=True),
     "C05": dict(focus=["Overlap", "Live"], models=["overlap", "overlapc"], tmodels=["overlap3", "restart", "t_overlap2", "t_restart3"], fams=["overlap", "overlap3", "base"],
                 crashes=(0, 1, 1), wf=0, rf=0),
-    "C06": dict(models=["base_conf", "faults"], tmodels=["base_exp", "base_tot", "t_faults2"], fams=["base", "amtless", "other", "overlap", "twohash"],
+    "C06": dict(live=["live"], models=["base_conf", "faults"], tmodels=["base_exp", "base_tot", "t_faults2"], fams=["base", "amtless", "other", "overlap", "twohash"],
                 crashes=(0,), wf=1, rf=1, extra=["garbage", "class-raw"]),
     "C07": dict(models=["base_conf", "base_exp", "base_tot", "base_amtless"], tmodels=["overlap"], fams=["base", "amtless"],
                 crashes=(0,), wf=0, rf=0),
     "C08": dict(focus=["Overlap", "Live"], models=["overlap", "faults", "restart"], tmodels=["t_overlap2", "t_faults2"], fams=["overlap", "base"],
                 crashes=(0, 1), wf=1, rf=0),
-    "C09": dict(models=["faults"], tmodels=["t_faults2", "restart"], fams=["base", "overlap"], crashes=(0, 1, 1), wf=1, rf=0, probes=3),
+    "C09": dict(models=["wedge", "faults"], tmodels=["t_faults2", "restart"], fams=["base", "overlap"], crashes=(0, 1, 1), wf=1, rf=0, probes=3),
     "C11": dict(clockback=True, extra=["restart_wait"], models=["base_conf", "restart"], tmodels=["t_restart3", "base_exp"], fams=["base", "amtless"], crashes=(0, 1), wf=0, rf=0),
     "C12": dict(models=["base_tot", "base_exp"], tmodels=["base_conf"], fams=["base", "amtless"], crashes=(0,), wf=0, rf=0),
     "C13": dict(models=["base_foreign"], tmodels=["twohash"], fams=["other", "twohash"], crashes=(0,), wf=0, rf=0, extra=["class"]),
     "C10": dict(models=["base_foreign", "base_amtless"], tmodels=["base_conf"], fams=["other", "amtless"], crashes=(0,), wf=0, rf=0, extra=["class"]),
     "C15": dict(models=["provider"], tmodels=[], fams=["base"], crashes=(0,), wf=0, rf=0, direct=3, allrate=1),
     "C16": dict(models=["provider"], tmodels=[], fams=["base"], crashes=(0,), wf=0, rf=0, direct=3, allrate=1),
-    "C14": dict(models=["twohash"], tmodels=["t_twohash2"], fams=["twohash"], crashes=(0,), wf=0, rf=0, freeze=True),
+    "C14": dict(live=["iso"], models=["twohash"], tmodels=["t_twohash2"], fams=["twohash"], crashes=(0,), wf=0, rf=0, freeze=True),
 }
 
 STATS = re.compile(r"(\d+) states generated, (\d+) distinct states found")
@@ -79,6 +79,18 @@ def tlc_design(name, props, workdir, timeout, workers=12, emit_rate=None, seed=1
     if not st:
         raise run.ToolError(f"TLC gave no statistics for {name}:\n" + out[-2000:])
     return int(st.group(1)), int(st.group(2)), out
+
+def tlc_live(name, workdir, timeout=1800):
+    """ML_<name>: temporal property `Answered` under fairness.  Returns (generated, distinct)."""
+    meta = f"{workdir}/meta_live_{name}"
+    env = dict(os.environ, JAVA_TOOL_OPTIONS="-DTLA-Library=/verif/spec")
+    p = subprocess.run(["timeout", str(timeout), "tlc", "-workers", "8", "-metadir", meta, "-cleanup", "-noGenerateSpecTE",
+                        "-config", f"ML_{name}.cfg", f"ML_{name}.tla"], cwd="/verif/spec/mc", env=env, capture_output=True, text=True)
+    shutil.rmtree(meta, ignore_errors=True)
+    st = STATS.search(p.stdout)
+    if p.returncode == 124 or "Error:" in p.stdout or not st or "No error has been found" not in p.stdout:
+        raise run.ToolError(f"liveness instance ML_{name}: TLC reports an error on the specification itself:\n" + p.stdout[-3000:])
+    return int(st.group(1)), int(st.group(2))
 
 def ev_to_step(ev):
     t = ev["t"]
@@ -139,7 +151,7 @@ def build_jobs(pid, tier, seed, workdir):
     per_model = 20000 if thorough else 1500
     mstats = {}
     EST = {"base_conf": 190000, "base_exp": 370000, "base_tot": 200000, "base_amtless": 43000, "base_foreign": 28000,
-           "restart": 280000, "overlap": 480000, "overlap3": 1850000, "overlapc": 440000, "faults": 74000, "twohash": 850000, "rfaults": 80000, "provider": 5000,
+           "restart": 280000, "overlap": 480000, "overlap3": 1850000, "overlapc": 440000, "wedge": 300000, "faults": 74000, "twohash": 850000, "rfaults": 80000, "provider": 5000,
            "t_restart3": 6000000, "t_overlap2": 8000000, "t_faults2": 2000000, "t_twohash2": 8000000}
     rng1 = random.Random(seed + 17)
     for name in mlist:
